@@ -119,16 +119,17 @@ def work(item, opts):
         rng = random.Random(f"c04/{item['seed']}")
         for _ in range(item["n"]):
             L = rng.randint(1, 40)
-            r = rng.uniform(0.2, 0.9)
+            hi_ = rng.choice([None, None, None, 1e3, 1e6])        # some histories live far above 1 (fitness 1 + |cost|)
+            r = rng.uniform(0.2, 0.9) if hi_ is None else rng.uniform(0.5, 2.0) * hi_
             script = []
             for _ in range(L):
                 step = rng.choice([0.0, 0.0, -1e-5, -5e-4, -2e-3, -0.05, 0.01, 1e-5, -1e-4, -9.9e-5])
-                r = min(0.99, max(0.0, r + step))
+                r = min(0.99, max(0.0, r + step)) if hi_ is None else max(0.0, r + step * hi_)
                 script.append(r)
             mc = rng.randint(1, L + 3)
             pick = script[rng.randrange(L)]
-            fe = rng.choice([None, None, 0.1, pick, 0.0, max(0.0, pick - 1e-7), max(0.0, pick - 1e-9), 1e-10])
-            es = rng.choice([None, (rng.choice([1e-4, 1e-3, 1e-2, 0.5, 0.0]), rng.randint(1, 6))])
+            fe = rng.choice([None, None, 0.1, pick, 0.0, max(0.0, pick - 1e-7), max(0.0, pick - 1e-9), 1e-10, -0.25, 5.0])
+            es = rng.choice([None, (rng.choice([1e-4, 1e-3, 1e-2, 0.5, 0.0, -1e-3]), rng.randint(1, 6))])
             kind, detail = run_scripted(tuple(script), mc, fe, es)
             if kind in ("skip", "fragile"):
                 skipped += 1
